@@ -49,6 +49,9 @@ func NewRun(property, tier string) *Run {
 	return &Run{Property: property, Tier: tier, Tables: map[string][]string{}, Stats: map[string]int{}, start: time.Now(), seen: map[string]int{}}
 }
 
+// SetStart lets the driver include load time in wall_s.
+func (r *Run) SetStart(t time.Time) { r.start = t }
+
 func (r *Run) Explain(rule, text string) {
 	r.Explanation = append(r.Explanation, rule+": "+text)
 }
